@@ -417,6 +417,19 @@ func (ex *exec) evalLocSet(env *SpecEnv, locs []AssignLoc) (*locSet, error) {
 					return nil, fmt.Errorf("%s: indexed location on non-slice", a.Text)
 				}
 			}
+		case *SCall:
+			if x.Fun != "allfields" || len(x.Args) != 1 {
+				return nil, fmt.Errorf("%s: unsupported location", a.Text)
+			}
+			b, err := env.term(x.Args[0])
+			if err != nil {
+				return nil, fmt.Errorf("%s: %v", a.Text, err)
+			}
+			if err := ex.allFieldCells(env, b, func(hi *heapInfo, ref string) {
+				ls.fieldRefs[hi.name] = append(ls.fieldRefs[hi.name], ref)
+			}); err != nil {
+				return nil, fmt.Errorf("%s: %v", a.Text, err)
+			}
 		case *SIdent:
 			// a package-level variable
 			if sp := vc.eng.spkgs[env.pkg]; sp != nil {
@@ -536,4 +549,27 @@ func (ex *exec) pureTerm(fc *FuncContract, key string, names []string, args []Va
 		return sApp(name, terms...)
 	}
 	return vc.pureApp(key, rs, args, st, i, sort)
+}
+
+// allFieldCells enumerates every scalar field cell of the struct base points to (nested value structs included).
+func (ex *exec) allFieldCells(env *SpecEnv, base Val, f func(hi *heapInfo, ref string)) error {
+	vc := ex.vc
+	st, _, isPtr := env.structOf(base.Typ)
+	if st == nil || !isPtr {
+		return fmt.Errorf(".* on a non-pointer-to-struct")
+	}
+	var walk func(t types.Type, ref string)
+	walk = func(t types.Type, ref string) {
+		sty := t.Underlying().(*types.Struct)
+		for i := 0; i < sty.NumFields(); i++ {
+			ft := sty.Field(i).Type()
+			if _, nested := ft.Underlying().(*types.Struct); nested {
+				walk(ft, "("+vc.fieldAddrFn(t, i)+" "+ref+")")
+				continue
+			}
+			f(vc.fieldHeap(t, i), ref)
+		}
+	}
+	walk(st, base.T)
+	return nil
 }
